@@ -1,1 +1,189 @@
-fn main() { verif_common::machinery_error("engine not built yet"); }
+use rt_bp::{model, part_a, part_b};
+use serde_json::json;
+
+fn main() {
+    let args = verif_common::Args::parse();
+    if args.property != "C19" {
+        verif_common::machinery_error(&format!("rt_bp serves C19 only, not `{}`", args.property));
+    }
+    part_a::calibrate();
+
+    if let Some(path) = &args.replay {
+        let case = verif_common::load_replay(path);
+        let code = match case["part"].as_str() {
+            Some("A") => part_a::replay(&case),
+            Some("B") => part_b::replay(&case),
+            _ => verif_common::machinery_error("replay file has no `part` (A|B)"),
+        };
+        println!("{}", if code == 0 { "replay: case no longer violates" } else { "replay: case still violates" });
+        std::process::exit(code);
+    }
+
+    let mut rep = verif_common::Reporter::from_args(&args);
+    let workers = args
+        .extra("workers")
+        .and_then(|w| w.parse().ok())
+        .unwrap_or_else(|| std::thread::available_parallelism().map(|n| n.get()).unwrap_or(4).min(16));
+    // `--parts a|b|ab` (default ab) is a debugging aid; /verif/check never passes it.
+    let parts = args.extra("parts").unwrap_or("ab").to_string();
+    let skip_b = !parts.contains('b');
+    let skip_a = !parts.contains('a');
+    let bounds = part_a::bounds(args.tier.is_thorough());
+    // Where `Blueprint::persist` writes (one file per worker, overwritten by every case).
+    // Per-process directory: concurrent runs of this engine (quick + thorough, mutants) must not
+    // overwrite each other's files. Removed at the end of the run.
+    let persist_dir = format!(
+        "{}/p{}",
+        args.extra("persist-dir").map(String::from).unwrap_or_else(|| format!("{}/persist", part_a::WORK_DIR)),
+        std::process::id()
+    );
+
+    if args.extra("count-only").is_some() {
+        // debugging aid: size of the enumerated space, nothing is executed
+        let (mut n1, mut n2) = (0u64, 0u64);
+        model::gen_calls(bounds.e1_calls, bounds.max_depth, model::Kind::None, &mut Vec::new(), &mut |_, _| n1 += 1);
+        model::gen_compound(bounds.e2_ops, bounds.max_depth, &model::compound_flat(), &model::compound_nest_chains(), &mut Vec::new(), &mut |_, _| n2 += 1);
+        println!("E1 cases: {n1}, E2 cases: {n2}");
+        std::process::exit(0);
+    }
+
+    // ---------------- Part A
+    let t0 = std::time::Instant::now();
+    let mut st = if skip_a { part_a::Stats::default() } else { part_a::explore(&bounds, args.seed, workers, &persist_dir) };
+    let wall_a = t0.elapsed().as_secs_f64();
+    st.nontrivial_hashes.sort_unstable();
+    st.nontrivial_hashes.dedup();
+    let distinct_a = st.nontrivial_hashes.len();
+    // one representative (smallest) case per key, re-executed once for determinism
+    let mut reps: std::collections::BTreeMap<String, (part_a::Outcome, part_a::Spec)> = Default::default();
+    for (o, spec) in st.violations.drain(..) {
+        let k = format!("{}{}", o.key(), spec.key_suffix());
+        match reps.get(&k) {
+            Some((_, c)) if model::size(&c.calls) <= model::size(&spec.calls) => {}
+            _ => {
+                reps.insert(k, (o, spec));
+            }
+        }
+    }
+    for (key, (o, spec)) in &reps {
+        let again = part_a::run_spec(spec, std::path::Path::new(&format!("{persist_dir}/recheck.ron")));
+        if again.outcome != *o {
+            verif_common::machinery_error(&format!(
+                "nondeterministic verdict for case {spec:?}: first {:?}, then {:?}",
+                o, again.outcome
+            ));
+        }
+        rep.violation(key, &format!("{} [case: {}]", o.what(), serde_json::to_string(spec).unwrap()), part_a::case_json(spec));
+    }
+
+    let _ = std::fs::remove_dir_all(&persist_dir);
+
+    // ---------------- Part B
+    let t1 = std::time::Instant::now();
+    let b = if skip_b { None } else { Some(part_b::check()) };
+    let wall_b = t1.elapsed().as_secs_f64();
+    if let Some(b) = &b {
+        for (key, what, case) in &b.violations {
+            rep.violation(key, what, case.clone());
+        }
+    }
+
+    // ---------------- evidence
+    let mut samples = st.samples.clone();
+    if let Some(b) = &b {
+        samples.extend(b.samples.iter().cloned());
+    }
+    if samples.is_empty() {
+        samples.push(json!({"calls": [model::Call::Route(0)], "note": "no sampled case (tiny run)"}));
+    }
+    let mut outcome_histogram = serde_json::Map::new();
+    for (k, v) in &st.by_outcome {
+        outcome_histogram.insert(format!("A:{k}"), json!(v));
+    }
+    if let Some(b) = &b {
+        for (k, v) in &b.histogram {
+            outcome_histogram.insert(format!("B:{k}"), json!(v));
+        }
+    }
+    let evaluations = st.evaluations + b.as_ref().map(|b| b.evaluations).unwrap_or(0);
+    let distinct = distinct_a + b.as_ref().map(|b| b.distinct_expected).unwrap_or(0);
+    let rule = format!(
+        "Part A — alphabet: the public blueprint-builder calls (route, constructor, wrap, pre_process, post_process, \
+error_observer, error_handler, prebuilt, config, fallback, import(from!), routes(from!), prefix, domain, nest on Blueprint; \
+chained setters .error_handler/.lifecycle/.clone_if_necessary/.never_clone/.cloning/.allow/.warn/.deny/.default_if_missing/\
+.required/.include_if_unused; .prefix/.domain/.nest/.routes on RoutingModifiers), 2 components or values per kind. \
+E1 = every well-typed call tree with <= {e1} calls (nested calls included) and nesting depth <= {d}; \
+E2 = every sequence of <= {e2} compound operations (DESIGN alphabet: {nflat} registrations with full setter chains, \
+{nchain} modifier chains in front of nest) with nesting depth <= {d}. Every call is made from its own source line \
+(12 banks of call sites: depth x position mod 4). Pipeline: real builder -> Blueprint::persist -> fs_err open + ron::de::from_reader \
+into pavex_bp_schema::Blueprint (as pavexc_cli). Oracle: == the schema value the reference model builds from the call list \
+(components, order, nesting, prefix incl. documented override, domain, lifecycle, cloning, lints, error handlers, \
+file/line/column of registered_at, nested_at, creation_location; domain-after-domain accepted as first- or last-wins). \
+Part B — one annotated item per legal combination of attribute arguments in a generated crate, rustdoc JSON by the docs \
+toolchain, attrs -> pavexc_annotations::parse_pavex_attributes; oracle: AnnotationProperties == what the attribute says \
+(None == Some(false) for boolean flags, as pavexc only tests for Some(true)). \
+Non-trivial: part A case whose blueprint carries >= 1 component (distinct by structural hash of the call tree); \
+part B: distinct expected AnnotationProperties values.",
+        e1 = bounds.e1_calls,
+        e2 = bounds.e2_ops,
+        d = bounds.max_depth,
+        nflat = model::compound_flat().len(),
+        nchain = model::compound_nest_chains().len(),
+    );
+    let coverage = json!({
+        "evaluations": evaluations,
+        "distinct_nontrivial": distinct,
+        "rule": rule,
+        "samples": samples,
+        "exhaustive": true,
+        "caps_hit": [],
+        "outcome_histogram": outcome_histogram,
+        "oracle_branches_note": "on the unchanged tree every case lands in A:equal / B:exact / B:equal_modulo_none_vs_some_false / B:unannotated_item_clean; the violation branches (A:mismatch on path_prefix, cloning_policy and nested_at; B:differs on method and lifecycle) are exercised by the five mutants in engines/rt_bp/mutants/, each detected with exit 1",
+        "part_a": {
+            "bound": {"e1_max_calls": bounds.e1_calls, "e2_max_compound_ops": bounds.e2_ops, "max_nesting_depth": bounds.max_depth},
+            "cases": st.evaluations,
+            "e1_cases": st.e1_cases,
+            "e2_cases": st.e2_cases,
+            "distinct_nontrivial_cases": distinct_a,
+            "cases_by_total_calls": st.by_size.iter().map(|(k, v)| (k.to_string(), json!(v))).collect::<serde_json::Map<_, _>>(),
+            "cases_by_nesting_depth": st.by_depth.iter().map(|(k, v)| (k.to_string(), json!(v))).collect::<serde_json::Map<_, _>>(),
+            "calls_executed_by_kind": st.by_call,
+            "cases_exhibiting": st.features,
+            "components_compared": st.components_compared,
+            "source_locations_compared": st.locations_compared,
+            "max_components_in_one_blueprint": st.max_components,
+            "violating_cases": st.violations_total,
+            "workers": workers,
+            "persist_dir": persist_dir,
+            "skipped": skip_a,
+            "wall_s": wall_a,
+        },
+        "part_b": match &b {
+            None => json!({"skipped": true}),
+            Some(b) => json!({
+                "annotated_items": b.evaluations,
+                "items_by_kind": b.by_kind,
+                "distinct_expected_property_values": b.distinct_expected,
+                "unannotated_items_checked_for_spurious_annotations": b.unannotated_checked,
+                "docs_toolchain": part_b::DOCS_TOOLCHAIN,
+                "rustdoc_json_cache": if b.docs_cache_hit { "hit" } else { "miss (cargo rustdoc was run)" },
+                "rustdoc_json_cache_key": b.docs_cache_key,
+                "rustdoc_json_cache_note": "the rustdoc JSON is cached under /verif/work/rt_bp/attr_cache keyed by sha256(generated crate, /repo/runtime/pavex_macros sources, /repo/compiler/pavexc_attr_parser sources, docs toolchain version); on a miss `cargo rustdoc` runs (seconds with a warm target dir, ~2 min cold)",
+                "rustdoc_wall_s": b.rustdoc_wall_s,
+                "observations_not_counted_as_violations": b.probes,
+                "wall_s": wall_b,
+            }),
+        },
+    });
+    let code = rep.finish(
+        "exploration",
+        coverage,
+        &[
+            "the annotated dummy components live in this engine's crate; their coordinates (id, macro_name, package name/version) are produced by the real macros and compared with hand-written expectations",
+            "expected source locations come from line!()/file!() next to each call plus a column computed by build.rs, calibrated at start-up against rustc's #[track_caller]",
+            "part B uses the installed `nightly` toolchain (rustdoc JSON format 57 = /repo's rustdoc_types) instead of pavexc's pinned nightly-2025-12-15, which is not installed",
+            "pavexc's later processing of the schema (analyses/user_components/blueprint.rs) is exercised by the e2e engine, not here",
+        ],
+    );
+    std::process::exit(code);
+}
